@@ -89,7 +89,7 @@ def check_call(name, fn, args, D, out, case, ref=None, atol=0.0, sigprefix='C12|
             out['fails'].append({'sig': '%s%s|truncated run raises' % (sigprefix, name), 'case': dict(case, Dp=Dp), 'detail': {'error': str(ex)[:200]}})
             return
         for a, k in zip(args, keep):
-            if k is not None and not np.array_equal(a.data, k):
+            if k is not None and not np.array_equal(a.data, k, equal_nan=True):
                 out['fails'].append({'sig': '%s%s|input modified through truncated view' % (sigprefix, name), 'case': dict(case, Dp=Dp), 'detail': {}})
                 return
         for k, (o, t) in enumerate(zip(full, tr)):
@@ -106,7 +106,7 @@ def check_call(name, fn, args, D, out, case, ref=None, atol=0.0, sigprefix='C12|
 def check_entry(e, D, seed, out):
     if D > e.maxD:
         return
-    for variant in CAT.variants_for(e, D):
+    for variant in CAT.variants_for(e, D, nonfinite=True):
         args = CAT.make_args(e, D, P, seed, variant)
         nm = e.name if variant == 'dense' else '%s{%s}' % (e.name, variant)
         check_call(nm, e.fn, args, D, out, {'kind': 'entry', 'name': e.name, 'D': D, 'seed': seed, 'variant': variant})
@@ -206,6 +206,52 @@ def check_program(prog, depth, D, seed, out, modes=('forward', 'reverse')):
                 break
 
 
+def check_program_nonfinite(prog, depth, D, seed, out):
+    """the top coefficient (order D-1) of the input curve and of the adjoint seed holds inf / nan in single elements: every
+    result and adjoint coefficient of lower order must equal the run on the truncated data, which never sees them"""
+    if any('D1only' in PR.TEMPLATES[i[0]].tags for i in prog) and D > 1:
+        return
+    if PR.in_domain(prog, [PR.POINTS[p] for p in range(P)]) is not None:
+        return
+    ps = PR.prog_str(prog)
+    xdata = PR.curve(seed, D, P)
+    xdata[D - 1, 0, 0] = np.inf
+    xdata[D - 1, P - 1, xdata.shape[2] - 1] = np.nan
+    xdata[D - 1, 0, 5] = -np.inf
+    case = {'kind': 'program', 'prog': prog, 'depth': depth, 'D': D, 'seed': seed, 'nonfinite': True}
+    attribs = lambda mode: ['instr:%s|%s' % (i[0], mode) for i in prog]
+    Dp = D - 1
+    try:
+        y = AD.forward(prog, xdata)
+        yt = AD.forward(prog, xdata[:Dp])
+        if not isinstance(y, UTPM):
+            return
+    except Exception:
+        out['counters']['forward_unsupported'] = out['counters'].get('forward_unsupported', 0) + 1
+        return
+    out['evals'] += 1
+    out['keys'].append('%s|%d|%d|fwd-nonfinite' % (ps, D, Dp))
+    why, w = cmp_low(y.data, yt.data, Dp)
+    if why:
+        out['fails'].append({'sig': 'C12|prog=%s|forward|non-finite top coefficient' % ps, 'case': dict(case, Dp=Dp, mode='forward'), 'detail': {'why': why}, 'attribs': attribs('forward-nonfinite')})
+        return
+    ybar = AD.dense(y.data.shape, seed, 6)
+    yflat = ybar.reshape(D, P, -1)
+    yflat[D - 1, 0, 0] = np.inf
+    yflat[D - 1, P - 1, yflat.shape[2] - 1] = np.nan
+    try:
+        xbar, _, _, _ = AD.reverse(prog, xdata, lambda shp, dt: ybar.copy())
+        xt, _, _, _ = AD.reverse(prog, xdata[:Dp], lambda shp, dt: ybar[:Dp].copy())
+    except AD.Outcome:
+        out['counters']['reverse_unsupported_or_failing (C03)'] = out['counters'].get('reverse_unsupported_or_failing (C03)', 0) + 1
+        return
+    out['evals'] += 1
+    out['keys'].append('%s|%d|%d|rev-nonfinite' % (ps, D, Dp))
+    why, w = cmp_low(xbar, xt, Dp)
+    if why:
+        out['fails'].append({'sig': 'C12|prog=%s|reverse|non-finite top coefficient' % ps, 'case': dict(case, Dp=Dp, mode='reverse'), 'detail': {'why': why}, 'attribs': attribs('reverse-nonfinite')})
+
+
 def run_unit(u):
     out = {'evals': 0, 'keys': [], 'fails': [], 'samples': [], 'counters': {}, 'maxima': {}}
     if u['kind'] == 'entries':
@@ -221,6 +267,8 @@ def run_unit(u):
         for prog, depth in u['progs']:
             for D in ([4] if u['tier'] == 'quick' else [3, 5]):
                 check_program(prog, depth, D, u['seed'], out)
+            for D in ([3] if u['tier'] == 'quick' else [2, 3, 4]):
+                check_program_nonfinite(prog, depth, D, u['seed'], out)
         out['samples'] = [{'program': PR.prog_str(u['progs'][0][0]), 'modes': ['forward', 'reverse']}]
     return out
 
@@ -235,6 +283,8 @@ def replay(case):
     elif case['kind'] == 'zero':
         run_zero({'tier': 'thorough'}, out)
         out['fails'] = [f for f in out['fails'] if f['case']['name'] == case['name'] and f['case']['D'] == case['D']]
+    elif case.get('nonfinite'):
+        check_program_nonfinite(case['prog'], case.get('depth', 1), case['D'], case.get('seed', 0), out)
     else:
         check_program(case['prog'], case.get('depth', 1), case['D'], case.get('seed', 0), out, modes=(case.get('mode', 'forward'),))
     return out['fails']
